@@ -268,6 +268,13 @@ func recipes() map[string][]Recipe {
 	add("os.lookup_group", has(ev("", "real-only", "", `r := try(func() { return os.lookup_group("root") }, func(e) { return "caught: " + string(e) })`), "VERIFSENT_VIRT"))
 	add("os.lookup_uid", has(ev("", "virtual", "", `r := os.lookup_uid(`+q(fmt.Sprint(vUid))+`)`), `"username": "`+vUser+`"`))
 	add("os.lookup_uid", has(ev("", "real-only", "", `r := try(func() { return os.lookup_uid("0") }, func(e) { return "caught: " + string(e) })`), "VERIFSENT_VIRT"))
+	// names and ids that only the real machine knows, in the spellings the other lookup would accept: the
+	// supplied OS's "not found" must be what the script sees
+	for i, n := range []string{"0", "1", "root", "daemon", "nobody", "65534", "00", " 0", "0 ", "+0", "-1", ""} {
+		for _, fn := range []string{"lookup_user", "lookup_group", "lookup_uid", "lookup_gid"} {
+			add("os."+fn, has(ev("", fmt.Sprintf("real-only-%d", i), "", `r := try(func() { return os.`+fn+`(`+q(n)+`) }, func(e) { return "caught: " + string(e) })`), "VERIFSENT_VIRT"))
+		}
+	}
 	add("os.lookup_user", has(ev("", "virtual", "", `r := os.lookup_user(`+q(vUser)+`)`), `"uid": "`+fmt.Sprint(vUid)+`"`))
 	add("os.lookup_user", has(ev("", "real-only", "", `r := try(func() { return os.lookup_user("root") }, func(e) { return "caught: " + string(e) })`), "VERIFSENT_VIRT"))
 	add("os.mkdir", post(ev("", "rel", "", `r := os.mkdir(`+q(relNewDir)+`)`), "+"+vpath(relNewDir), "<dir>"))
